@@ -366,6 +366,36 @@ def run(res, tier):
                                % (f.q, (c.get('q') or '').split('::')[-1], qp.get('n'), qp.get('n')))
     if n_qs < 1:
         raise AnalysisBroken('QUEUE-SELF: no method that moves items while reading a Queue parameter was found (AddHeadMulti expected)')
+    # ---- HEAD-TAIL: where a method re-bases the ring (assigns _headIndex and _tailIndex together), the tail is computed from the NEW head
+    res.rule('HEAD-TAIL', 'in a block that assigns both _headIndex and _tailIndex (with _tailIndex = <base> + _itemCount - 1), <base> is the value just stored in _headIndex: the same expression, or '
+                          '_headIndex read after that store', floor=1)
+    n_ht = 0
+    for f in sorted(funcs, key=lambda f: f.line):
+        byblk = {}
+        for w in f.walk():
+            if w['k'] == 'BinaryOperator' and w.get('op') == '=' and A.strip_casts(w['ch'][0])['k'] == 'MemberExpr' and A.strip_casts(w['ch'][0]).get('n') in ('_headIndex', '_tailIndex') and A.is_this_member(A.strip_casts(w['ch'][0])):
+                p_ = P.pos_of(f, w)
+                if p_:
+                    byblk.setdefault(p_[0], {}).setdefault(A.strip_casts(w['ch'][0])['n'], []).append((p_[1], w))
+        for b, d in sorted(byblk.items()):
+            if '_headIndex' not in d or '_tailIndex' not in d:
+                continue
+            (hi, hw), (ti, tw) = d['_headIndex'][-1], d['_tailIndex'][-1]
+            te = tw['ch'][1]
+            if not any(x['k'] == 'MemberExpr' and x.get('n') == '_itemCount' for x in te.walk()):
+                continue
+            n_ht += 1
+            reads_head = any(x['k'] == 'MemberExpr' and x.get('n') == '_headIndex' for x in te.walk())
+            hk = A.render_key(hw['ch'][1])
+            same_base = any(A.render_key(x) == hk for x in te.walk())
+            ok = (reads_head and hi < ti) or (not reads_head and same_base)
+            if not reads_head and A.strip_casts(hw['ch'][1]).get('v') == 0:
+                ok = True         # new head is slot 0: the tail is simply count - 1 (no base term to agree with)
+            res.ob('HEAD-TAIL', f.where(tw), '%s: _tailIndex is derived from the new _headIndex' % f.q.split('::')[-1], ok, function=f.q, key='HEAD-TAIL|%s|%s' % (f.q.split('<')[0] + '::' + f.q.split('::')[-1], tw.get('l')),
+                   message='%s computes `_tailIndex = %s` from the head index the ring had BEFORE `_headIndex = %s` in the same block: head and tail no longer delimit the items (for a wrapped ring the '
+                           'tail lies outside the array), so the next AddTail() stores its item in the wrong slot and a later one overwrites the head' % (f.q, te.text(50), hw['ch'][1].text(30)))
+    if n_ht < 1:
+        raise AnalysisBroken('HEAD-TAIL: no block assigning both _headIndex and _tailIndex found')
     res.explanation = ('Static decision of one structural invariant of Queue, per forced instantiation: IsPerItemClearNecessary() is folded to its per-type constant and the CFG is pruned accordingly; for owning item types '
                        'every reachable decrease of _itemCount is followed by a store of the default item into the vacated slot (Clear() resets all slots before FastClear()); for trivial item types the two places '
                        'where EnsureSizeAux raises _itemCount over unassigned slots are preceded by default-store loops. Equivalence with an ideal deque is not decided.')
